@@ -42,11 +42,15 @@ def pyval(v):
     if isinstance(v, SNum):
         c = v.const()
         if c is None:
+            if _closed_poly(v.p):
+                return float(v.p.evalf(core.Env({})))
             return None
         return int(c) if v.is_int and c.denominator == 1 else float(c)
     if isinstance(v, SCx):
         if not v.t:
             return 0j
+        if all(_closed_poly(k) and _closed_poly(a) and _closed_poly(b) for k, (a, b) in v.t.items()):
+            return complex(core.evalf(v, core.Env({})))
         if set(v.t) == {P0} and v.t[P0][0].is_const() and v.t[P0][1].is_const():
             return complex(float(v.t[P0][0].cval()), float(v.t[P0][1].cval()))
         return None
@@ -58,6 +62,16 @@ def pyval(v):
             return False
         return None
     return v
+
+
+def _closed_poly(p):
+    """no free variables: only algebraic constants (sqrt of a number, pi)"""
+    for m in p.t:
+        for v, e in m:
+            var = core.VARS[v]
+            if var.kind not in ('sqrt', 'pi') or var.deps:
+                return False
+    return True
 
 
 def concrete(a, dtype=None):
@@ -958,6 +972,8 @@ def asarray(x, dtype=None, **kw):
             kd = _kind(dtype)
             if kd == 'int':
                 return astype(r, builtins.int)
+            if kd == 'bool':
+                return astype(r, builtins.bool)
             if r.ldtype != kd:
                 r = r.view(SArr)
                 r.ldtype = kd
@@ -1087,9 +1103,33 @@ np.real = lambda x: (e_real(x) if isinstance(x, SYM) else to_sarr(x).real) if is
 np.imag = lambda x: (e_imag(x) if isinstance(x, SYM) else to_sarr(x).imag) if is_sym(x) else rnp.imag(x)
 
 
+def _closed_value(v):
+    """numeric value of an element without free variables (closed phases / constants), else None"""
+    if isinstance(v, SCx):
+        for k, (a, b) in v.t.items():
+            if not (k.is_const() and a.is_const() and b.is_const()):
+                return None
+        return core.evalf(v, None)
+    if isinstance(v, SNum):
+        c = v.const()
+        return None if c is None else float(c)
+    if isinstance(v, SBool):
+        return None
+    return v
+
+
 def angle(z, deg=False):
     if is_sym(z):
-        raise SymxUnsupported('angle of symbolic value')
+        if isinstance(z, SYM):
+            c = _closed_value(z)
+            if c is None:
+                raise SymxUnsupported('angle of symbolic value')
+            return rnp.angle(c, deg)
+        Z = to_sarr(z)
+        vals = [_closed_value(v) for v in Z.flat]
+        if any(v is None for v in vals):
+            raise SymxUnsupported('angle of symbolic value')
+        return rnp.angle(rnp.array(vals, dtype=complex).reshape(Z.shape), deg)
     return rnp.angle(z, deg)
 
 
